@@ -432,6 +432,11 @@ package p9
 //@   ensures[C07,C08,C16] @registered has(p.childNodes, name) && result == p.childNodes[name] && result != nil && result != p
 //@   ensures[C08] @others-unchanged forall(k, string, k != name ==> has(p.childNodes, k) == old(has(p.childNodes, k)) && p.childNodes[k] == old(p.childNodes[k]))
 //@   ensures[C08] @existing-kept old(has(p.childNodes, name)) ==> result == old(p.childNodes[name])
+//@   ensures[C15,C16] @child-lock-released-on-every-path samelocks()
+// (C16: between this invocation's lock acquisitions other requests may have
+// changed the child table - the re-check after re-locking is reachable)
+//@   at (*sync.RWMutex).RLock ghost interfere[C16] mapof(p.childNodes) preserving Inodes()
+//@   at (*sync.RWMutex).Lock ghost interfere[C16] mapof(p.childNodes) preserving Inodes()
 //@   nopanic
 
 // ---- handlers -----------------------------------------------------------------
@@ -892,6 +897,7 @@ package p9
 //@   ensures[C04] @other-fids-unchanged forall(k, fid, k != old(t.fid) ==> has(cs.fids, k) == old(has(cs.fids, k)) && cs.fids[k] == old(cs.fids[k]))
 //@   ensures[C03,C15] @error-or-result ncalls() > old(ncalls()) ==> result1 == ghost("$lasterr", error)
 //@   ensures[C05] @new-ref-holds-created-file result1 == nil ==> cs.fids[old(t.fid)].file == ghost("$ret.File", File) && cs.fids[old(t.fid)].parent == old(cs.fids[t.fid])
+//@   ensures[C09] @created-file-is-not-walkable-as-a-directory result1 == nil ==> cs.fids[old(t.fid)].mode == ModeRegular
 //@ func (*tlcreate).handle
 //@   use handlerBase localLocks
 //@   ensures[C06] @reply-type typeis(result, *rlcreate) || typeis(result, *rlerror)
@@ -996,6 +1002,7 @@ package p9
 //@   ensures[C08] @fenced-refused old(has(cs.fids, t.fid)) && old(cs.fids[t.fid].parent) != nil && old(fenced(cs.fids[t.fid])) ==> typeis(result, *rlerror) && nocalls()
 //@   at File.UnlinkAt requires[C03,C08] @parent-and-current-name recv == old(cs.fids[t.fid].parent).file && arg0 == old(cs.fids[t.fid].parent.pathNode.childRefNames[cs.fids[t.fid]]) && arg1 == 0
 //@   at (*fidRef).markChildDeleted requires[C08] @fences-only-after-success ghost("$lasterr", error) == nil && ncalls("File.UnlinkAt") == old(ncalls("File.UnlinkAt")) + 1
+//@   at (*fidRef).markChildDeleted requires[C08,C09] @fences-the-removed-entry-in-its-parent recv == old(cs.fids[t.fid].parent) && arg0 == old(cs.fids[t.fid].parent.pathNode.childRefNames[cs.fids[t.fid]])
 //@   ensures[C15] @backend-error-reported ncalls() > old(ncalls()) && ghost("$lasterr", error) != nil ==> typeis(result, *rlerror)
 
 // ---- rename / unlink ---------------------------------------------------------------
@@ -1071,6 +1078,7 @@ package p9
 //@   ensures[C08] @fenced-start-enoent len(names) > 0 && forall(j, 0, len(names), safe(names[j])) && FileMode.IsDir(old(ref.mode)) && old(fenced(ref)) ==> errIs(err, linux.ENOENT) && nocalls()
 //@   at walkOne requires[C09] @only-through-directories len(arg2) > 0 ==> bound(arg1) && FileMode.IsDir(refof(arg1).mode)
 //@   at walkOne requires[C09] @one-component-at-a-time len(arg2) <= 1
+//@   at (*pathNode).pathNodeFor requires[C07,C08,C16] @node-of-the-component-under-the-current-position recv == walkRef.pathNode && arg0 == names[i]
 //@   loop 0 invariant[C09] 0 <= rangeindex + 1 && rangeindex + 1 <= len(names)
 //@   loop 0 invariant[C09] forall(j, 0, rangeindex + 1, safe(names[j]))
 //@   loop 1 invariant[C09] 0 <= i && i <= len(names)
@@ -1272,7 +1280,7 @@ package p9
 //@   at (Buffers).ReadFrom presume sumlens(recv, 0) == 0 && sumsnoc(recv, 0) && sumsnoc(recv, 1) && (len(recv) == 2 ==> arr(recv[0]) != arr(recv[1]))
 //@   at (Buffers).ReadFrom requires[C02,C17] @vector-list-is-fixed-part-then-payload len(recv) <= 2 && sumlens(recv) == int(remaining)
 //@   at (Buffers).ReadFrom requires[C02,C17] @reads-body-only-for-accepted-sizes 7 <= size && size <= msize && size <= maximumLength
-//@   at message.decode requires[C02,C18] @decode-sees-only-this-frame len(dataBuf.data) <= int(remaining)
+//@   at message.decode requires[C02,C17,C18] @decode-sees-only-this-frame len(dataBuf.data) <= int(remaining)
 //@   at message.decode requires[C02,C18] @decodes-only-a-completely-read-body ncalls("(Buffers).ReadFrom") == 1 || remaining == 0
 //@   ensures[C02,C06] @message-iff-no-error (result2 == nil) == (result1 != nil)
 //@   local_ensures[C02,C10,C17] @skipped-frame-is-drained-to-its-declared-end ncalls("lookup") == 1 && result2 != nil && !typeis(result2, ConnError) ==> ghost("$consumed", int) == old(ghost("$consumed", int)) + int(size) || ghost("$eof", bool)
@@ -1324,6 +1332,7 @@ package p9
 //@   at send requires[C14] @tag-cleared-before-reply ncalls("(*connState).StartTag") == ncalls("(*connState).ClearTag")
 //@   at (*connState).handle requires[C06] @not-holding-receive-token held(cs.recvMu) == 0
 //@   at (*connState).handle requires[C06] @a-receiver-exists-first ghost("$spawned") > old(ghost("$spawned")) || cs.recvIdle != 0
+//@   at (*connState).handle requires[C06] @not-counted-as-an-idle-receiver-while-handling cs.recvIdle == old(cs.recvIdle)
 //@   at (*connState).handle requires[C06] @tag-registered-first ncalls("(*connState).StartTag") == 1
 // (a Tflush naming its own tag is answered at once, without a handler: F5 fix)
 //@   at (*connState).ClearTag requires[C14] @only-after-handler-returned (ncalls("(*connState).handle") == 1 || (typeis(m, *tflush) && unbox(m, *tflush).OldTag == tag)) && arg0 == ghost("$ret.tag", tag)
